@@ -147,10 +147,14 @@ pub fn block_fh(b: &B, k: &bsl::Block) -> String {
         let a = k.block_hash();
         let a: &[u8] = a.as_ref();
         let s = k.block_hash_sha2();
-        if a == s.as_slice() {
+        // the same hash through the header accessor, with both backends
+        let ha = k.header().block_hash();
+        let ha: &[u8] = ha.as_ref();
+        let hs = k.header().block_hash_sha2();
+        if a == s.as_slice() && a == ha && a == hs.as_slice() && k.header().block_hash_preimage() == &k.as_ref()[..80.min(k.as_ref().len())] {
             hex(a)
         } else {
-            format!("MISMATCH:{}:{}", hex(a), hex(s.as_slice()))
+            format!("MISMATCH:{}:{}:{}:{}", hex(a), hex(s.as_slice()), hex(ha), hex(hs.as_slice()))
         }
     });
     format!("v={},total={},hdr=({}),hash={}", b.sl(k.as_ref()), k.total_transactions(), header_f(b, k.header()), hash)
